@@ -34,13 +34,11 @@ bool continuousFam(int f) { return f <= UNIF; }
 // |parent mass over a class - p*M| / M : calibrated >= 100x the worst ratio seen on the unchanged tree (closed-form families: rounding only)
 double massTol(int fam) { switch (fam) { case GAUSS: return 1e-3; case GAMMA: return 1e-6; case GAMMA_OFF: case BETA: return 1e-5; default: return 1e-10; } }
 
-// ---- generator-side avoidance rates for triggers of confirmed defects (see the harness report).
-// A run carries the trigger only when the corresponding cfg flag is set; everything else is unchanged.
-const double RATE_LOOKUP_BEYOND_FIRST_CLASS = 0.02;   // value lookups outside the first class
-const double RATE_OFFSET_UPDATE = 0.02;               // updates of the gamma offset parameter
-const double MIN_MASS = 1e-3;                         // least share of the parent's mass a restricted domain keeps (quantifier guard)
+// ---- generator-side avoidance of the one defect that stays known (rescaled medians leave their class, see known_findings.json).
+// Every other hazard flag of the first version is gone: its defect is repaired in the library (fixes 01-08) and its trigger is
+// generated at the full rate.
 const double RATE_MEDIAN_WITH_OFFSET = 0.05;          // median-valued classes on a gamma with offset (scaled medians leave their class)
-const double RATE_BETA_FREE = 0.02;                   // beta shapes crossing 1 during a run + ctor-only twin
+const double MIN_MASS = 1e-3;                         // least share of the parent's mass a restricted domain keeps (quantifier guard); exactly 0 is allowed
 
 struct Spec {
   int fam = GAMMA;
@@ -171,9 +169,7 @@ class Exec {
   bool lookupsBeyondFirst, offsetUpdates, betaFree, medianOffset;
 public:
   Exec(const Plan& pl, Ctx& c) : p(pl), ctx(c) {
-    lookupsBeyondFirst = p.geti("lookupAll") != 0;
-    offsetUpdates = p.geti("offsetUpd") != 0;
-    betaFree = p.geti("betaFree") != 0 && p.geti("fam") == BETA;     // top-level beta only: one signature per defect
+    lookupsBeyondFirst = true; offsetUpdates = true; betaFree = true;     // repaired defects: full rate
     medianOffset = p.geti("medianOffset") != 0;
   }
 
@@ -239,22 +235,20 @@ public:
         default: if (continuousFam(spec.fam)) bounds = d.getBounds();
       }
     }
+    long invExpected = -1;
     if (spec.fam == INVMIX) {
-      // confirmed defect with its own signature: nested class values closer to each other / to the invariant than the
-      // outer map's key comparator (1e-12) are merged, losing classes and probability mass
+      // classes of the compound = the invariant plus the nested class values, those the 1e-12 key comparator cannot tell apart sharing one class
       auto* im = dynamic_cast<const bpp::InvariantMixedDiscreteDistribution*>(&d);
       std::vector<double> nc = im ? im->variableSubDistribution().getCategories() : std::vector<double>();
-      bool close = false; for (size_t i = 0; i < nc.size(); ++i) { if (nc[i] != 0 && std::abs(nc[i]) <= 1e-12) close = true; if (i && nc[i] - nc[i - 1] <= 1e-12) close = true; }
-      double s0 = 0; for (double q : probs) s0 += q;
-      bool bad = std::abs(s0 - 1) > 1e-9 || !(static_cast<long>(n) == P.n + 1 || static_cast<long>(n) == P.n);
-#ifndef C09_CALIBRATE
-      if (close && bad) ctx.fail("invariant:compound-normalisation", "invariant:compound-normalisation:Invariant:nested-values-within-map-precision", who + ": " + std::to_string(n) + " classes, probabilities sum to " + fmtd(s0) + "; nested class values " + vecStr(nc) + " collide with each other or with the invariant 0 under the 1e-12 key comparator");
-#endif
+      std::vector<double> keys = {0.0};
+      for (double v : nc) { bool dup = false; for (double k : keys) if (std::abs(v - k) <= 1e-12) dup = true; if (!dup) keys.push_back(v); }
+      invExpected = static_cast<long>(keys.size());
+      if (invExpected < static_cast<long>(nc.size()) + 1 && !nc.empty() && nc[0] != 0) ctx.probe("invariant-nested-values-within-map-precision");
     }
     // class count
     ctx.check(cats.size() == n && probs.size() == n, "invariant:class-count", "invariant:class-count:" + fam, who + ": getNumberOfCategories()=" + std::to_string(n) + " but " + std::to_string(cats.size()) + " class values / " + std::to_string(probs.size()) + " probabilities");
     if (continuousFam(spec.fam)) ctx.check(static_cast<long>(n) == P.n, "invariant:class-count", "invariant:class-count:" + fam, who + ": " + std::to_string(P.n) + " classes requested, " + std::to_string(n) + " present");
-    if (spec.fam == INVMIX) ctx.check(static_cast<long>(n) == P.n + 1 || static_cast<long>(n) == P.n, "invariant:class-count", "invariant:class-count:" + fam, who + ": " + std::to_string(P.n) + " nested classes requested, " + std::to_string(n) + " present");
+    if (spec.fam == INVMIX) ctx.check(static_cast<long>(n) == invExpected && invExpected <= P.n + 1, "invariant:class-count", "invariant:class-count:" + fam, who + ": " + std::to_string(P.n) + " nested classes requested, invariant + nested values give " + std::to_string(invExpected) + " distinct classes, " + std::to_string(n) + " present");
     ctx.check(n >= 1, "invariant:class-count", "invariant:class-count:" + fam, who + ": no class");
     // normalisation
     double sum = 0;
@@ -300,7 +294,8 @@ public:
       if (!in) ctx.fail("invariant:value-in-class", P.median ? std::string("invariant:value-in-class:median-scaled") : "invariant:value-in-class:" + fam + ":mean", who + ": class " + std::to_string(i) + " of " + std::to_string(n) + " has value " + fmtd(cats[i]) + " outside its interval [" + fmtd(bounds[i]) + ", " + fmtd(bounds[i + 1]) + "]");
     }
     double Plo = d.pProb(lo), Phi = d.pProb(hi), M = Phi - Plo;
-    ctx.check(M > 0 && M <= 1 + 1e-9, "invariant:domain-mass", "invariant:domain-mass:" + fam, who + ": domain mass " + fmtd(M));
+    ctx.check(M >= 0 && M <= 1 + 1e-9, "invariant:domain-mass", "invariant:domain-mass:" + fam, who + ": domain mass " + fmtd(M));
+    if (M == 0) { ctx.probe("zero-mass-domain-checked"); return; }      // no parent mass to compare with: the structural laws above are all that is left
     bool equalP = true;
     for (size_t i = 0; i < n; ++i) if (std::abs(probs[i] - 1.0 / static_cast<double>(n)) > 1e-12) equalP = false;
     bool equalScheme = spec.fam != BETA || spec.scheme == 1;
@@ -404,7 +399,8 @@ public:
       if (inBeta && !betaFree) return current <= 1 ? lg(0.1, 1.0) : lg(1.001, 100);   // stay on the same side of 1 (see report: beta domain end points)
       return lg(0.1, 100);
     }
-    if (base == "offset") return lg(0.01, std::max(0.010001, current));   // offset updates (rare runs) only move the offset down: see report
+    if (base == "offset") return lg(0.01, 10);
+    if (base == "mu" && u < 0.08) return 0;                 // the default location
     if (base == "mu" || base == "value") return (signBit & 1 ? -1 : 1) * lg(0.01, 10);
     if (base == "sigma" || base == "lambda") return lg(0.01, 10);
     if (base == "tp") return lg(0.05, 50);
@@ -430,7 +426,6 @@ public:
     std::vector<size_t> r; const bpp::ParameterList& pl = d.getParameters();
     for (size_t i = 0; i < pl.size(); ++i) {
       const std::string& nm = pl[i].getName();
-      if (!(offsetUpdates && spec.fam == GAMMA_OFF && !restricted(P)) && nm.size() >= 6 && nm.compare(nm.size() - 6, 6, "offset") == 0) continue;
       r.push_back(i);
     }
     return r;
@@ -450,7 +445,7 @@ public:
     if (!(l < h)) return 0;
     return d.pProb(h) - d.pProb(l);
   }
-  bool massGuard = true;
+  bool massGuard = true, zeroMassTaken = false;
   bool restricted(const Party& P) const { return !P.restr.empty() || !P.histOk || P.restrTouched; }
   // mass the current domain of P would keep if the parameters named in `cand` took the given values
   double massAfter(const Party& P, const bpp::ParameterList& cand) {
@@ -467,14 +462,15 @@ public:
     return sc->pProb(hi) - sc->pProb(lo);
   }
   bool updateKeepsMass(const Party& P, const bpp::ParameterList& cand) {
-    bool staleDomainPossible = spec.fam == GAMMA_OFF && offsetUpdates;     // the domain does not follow the offset (confirmed defect)
-    if (!massGuard || (!restricted(P) && !staleDomainPossible)) return true;
+    if (!massGuard || !restricted(P)) return true;
     if (!continuousFam(spec.fam)) {
       // compounds: after a restriction only their own weights (p, theta) are updated
       for (size_t i = 0; i < cand.size(); ++i) { std::string b = cand[i].getName(); size_t dot = b.find_last_of("._"); if (dot != std::string::npos) b = b.substr(dot + 1); if (!(b == "p" || b.compare(0, 5, "theta") == 0)) return false; }
       return true;
     }
-    return massAfter(P, cand) >= MIN_MASS;
+    double m = massAfter(P, cand);
+    if (m == 0 && (spec.fam == GAMMA || spec.fam == GAUSS || spec.fam == EXPO)) { ctx.probe("zero-mass-domain-update"); zeroMassTaken = true; return true; }   // uniform fallback of the library
+    return m >= MIN_MASS;
   }
 
   // 0 returned, 1 ConstraintException, 2 ParameterNotFoundException, 3 other bpp::Exception
@@ -499,6 +495,11 @@ public:
       ctx.fault("reject@k"); ctx.rejected();
     } else {
       P.sawUpdate = true;
+      // the domain object keeps only the intersection of support and restrictions: once the offset moves under a restriction the
+      // library cannot tell the two apart any more, so the expected content is not compared with a twin (validity still is)
+      // a twin would have to pass through restricted domains with a last ulp of mass on its way to the zero-mass one (outside the quantifier guard)
+      if (zeroMassTaken) { P.histOk = false; zeroMassTaken = false; }
+      if (touchesOffset && restricted(P)) { P.histOk = false; ctx.probe("offset-moved-under-restriction"); }
       if (touchesBeta) { P.betaFired = true; P.betaSub.resize(spec.sub.size(), 0); for (size_t k : touchedSubs) if (k < P.betaSub.size()) P.betaSub[k] = 1; }
       if (spec.fam == GAMMA_OFF && !restricted(P)) {
         double off = P.d->getParameterValue("offset"), l = P.d->getLowerBound();
@@ -507,7 +508,8 @@ public:
       ctx.ok();
     }
   }
-  bool touchesBeta = false;
+  bool touchesBeta = false, touchesOffset = false;
+  static bool isOffsetParam(const std::string& nm) { return nm.size() >= 6 && nm.compare(nm.size() - 6, 6, "offset") == 0; }
   std::vector<size_t> touchedSubs;
   bool isBetaParam(const std::string& fullName) {
     if (spec.fam == BETA) return true;
@@ -532,7 +534,7 @@ public:
     int want = o.d == 2 ? 2 : ((q.hasConstraint() && !q.getConstraint()->isCorrect(x)) ? 1 : 0);
     if (want == 1 && !wantReject) ctx.probe("regular-value-rejected-by-narrowed-constraint");
     if (want == 0) { bpp::ParameterList cand; cand.addParameter(bpp::Parameter(q.getName(), x)); if (!updateKeepsMass(P, cand)) { ctx.probe("update-skipped-mass-guard"); ctx.outcome("skip"); return; } }
-    touchedSubs.clear(); touchesBeta = isBetaParam(q.getName());
+    touchedSubs.clear(); touchesBeta = isBetaParam(q.getName()); touchesOffset = isOffsetParam(q.getName());
     Snapshot before = snap(d);
     int got = attempt([&] { d.setParameterValue(nm, x); });
     if (o.d == 2) ctx.probe("absent-parameter-name");
@@ -545,7 +547,7 @@ public:
     const bpp::ParameterList& pl = d.getParameters();
     if (upd.empty()) { ctx.outcome("skip"); return; }
     long kind = o.d % 3;       // 0 setParametersValues 1 matchParametersValues 2 setAllParametersValues
-    bpp::ParameterList src; bool anyReject = false; size_t included = 0; touchesBeta = false; touchedSubs.clear();
+    bpp::ParameterList src; bool anyReject = false; size_t included = 0; touchesBeta = false; touchesOffset = false; touchedSubs.clear();
     long badPos = o.c % static_cast<long>(upd.size() + 2) - 1;    // -1 and size: none
     std::vector<bool> isUpd(pl.size(), false); for (size_t i : upd) isUpd[i] = true;
     size_t rank = 0; bool missing = false;
@@ -565,6 +567,7 @@ public:
       if (q.hasConstraint() && !q.getConstraint()->isCorrect(x)) anyReject = true;
       src.addParameter(bpp::Parameter(q.getName(), x));
       if (x != q.getValue() && isBetaParam(q.getName())) touchesBeta = true;
+      if (isOffsetParam(q.getName())) touchesOffset = true;
       ++included;
     }
     if ((o.b >> 21) & 1) { src.addParameter(bpp::Parameter("foreign.name", 1.0)); ctx.probe("bulk-with-foreign-name"); }
@@ -649,7 +652,7 @@ public:
         if (pl.size() > 0) f->setParametersValues(pl);
         if (order != 0) applyRestr(*f, P);
         if (order == 2) f->setMedian(P.median);
-        if (!hasFixedCount(spec)) f->setNumberOfCategories(static_cast<size_t>(P.n));
+        f->setNumberOfCategories(static_cast<size_t>(P.n));
       } else {
         f = build(fs);
         if (order == 0) { applyRestr(*f, P); f->setMedian(P.median); }
@@ -681,9 +684,7 @@ public:
   static bool hasBeta(const Spec& s) { if (s.fam == BETA) return true; for (auto& x : s.sub) if (hasBeta(x)) return true; return false; }
   const std::vector<char>* twinBetaSub = nullptr;
   Spec perturbed(const Spec& s) const {
-    Spec o = perturbed1(s);
-    if (hasFixedCount(spec)) setAllN(o, s.fam == INVMIX || s.fam == MIXTURE ? s.sub[0].n : s.n), restoreN(o, s);
-    return o;
+    return perturbed1(s);
   }
   static void restoreN(Spec& o, const Spec& s) { o.n = s.n; for (size_t i = 0; i < o.sub.size(); ++i) restoreN(o.sub[i], s.sub[i]); }
   Spec perturbed1(const Spec& s) const {
@@ -692,7 +693,6 @@ public:
     if (o.fam == UNIF) o.n = s.n == 3 ? 5 : 3;
     if (o.fam == CONSTANT) o.par[0] = o.par[0] * 1.37 + 0.011;
     if (o.fam == SIMPLE) { size_t k = o.par.size() / 2; for (size_t i = 0; i < k; ++i) o.par[i] = o.par[i] * 1.37 + 0.011; }
-    if (o.fam == GAMMA_OFF) o.par[2] = s.par[2];      // the twin is a tool: it never takes the offset-update route (confirmed defect)
     if (o.fam == BETA) for (size_t i = 0; i < 2; ++i) o.par[i] = s.par[i] <= 1 ? std::min(1.0, s.par[i] * 1.1) : s.par[i] * 1.37;
     if (o.fam == INVMIX) o.p = 0.5 * s.p + 0.1;
     for (size_t i = 0; i < o.sub.size(); ++i) {
@@ -732,10 +732,11 @@ public:
       else if (o.k == "ncat" || o.k == "ncatfixed") {
         // class count of Simple/Constant is fixed by construction; a mixture forwards the call to them (memory error, see report):
         // only the hand-written probe op "ncatfixed" does that
-        if (o.k == "ncat" && hasFixedCount(spec)) { ctx.outcome("skip"); mutating = false; }
-        else {
+        {
           long nn = 1 + (o.b - 1 + 32) % 32;
-          P.d->setNumberOfCategories(static_cast<size_t>(nn)); P.n = nn;
+          P.d->setNumberOfCategories(static_cast<size_t>(nn));
+          if (spec.fam != SIMPLE && spec.fam != CONSTANT) P.n = nn; else ctx.probe("class-count-request-on-fixed-count-family");
+          if (spec.fam == MIXTURE && hasFixedCount(spec)) ctx.probe("class-count-request-on-fixed-count-family");
           if (nn == 1) ctx.probe("single-class"); if (nn >= 24) ctx.probe("many-classes");
           ctx.ok();
         }
@@ -800,7 +801,7 @@ Spec drawBasic(Rng& rng, int fam) {
     case GAMMA: s.par = {rng.logUniform(0.1, 100), rng.logUniform(0.1, 100)}; break;
     case GAMMA_OFF: s.par = {rng.logUniform(0.1, 100), rng.logUniform(0.1, 100), rng.logUniform(0.01, 10)}; break;
     case BETA: s.par = {rng.logUniform(0.1, 100), rng.logUniform(0.1, 100)}; s.scheme = static_cast<int>(rng.range(1, 3)); break;
-    case GAUSS: s.par = {(rng.chance(0.5) ? -1 : 1) * rng.logUniform(0.01, 10), rng.logUniform(0.01, 10)}; break;
+    case GAUSS: s.par = {(rng.chance(0.5) ? -1 : 1) * rng.logUniform(0.01, 10), rng.logUniform(0.01, 10)}; if (rng.chance(0.1)) s.par[0] = 0; break;
     case EXPO: s.par = {rng.logUniform(0.01, 10)}; break;
     case TEXP: s.par = {rng.logUniform(0.01, 10), rng.logUniform(0.05, 50)}; break;
     case UNIF: { double a = (rng.chance(0.3) ? -1 : 1) * rng.logUniform(0.01, 10); s.par = {a, a + rng.logUniform(0.01, 10)}; break; }
@@ -826,7 +827,7 @@ public:
     i.rule = "plans: one family per run (compound families wrap seeded basic ones), seeded history of parameter updates (single / bulk, accepted and rejected), class-count changes 1..32, median toggles, nested restrictions, copies/assignments/destroyed sources, namespace changes, interleaved reads, lookups, parent-function probes and fresh-twin comparisons; invariants of the statement evaluated on every live party after every step; non-trivial = >=3 accepted state-changing steps and >=1 fault (rejected update or permuted read order) fired; distinct = distinct fingerprint of the executed op-kind/outcome sequence";
     i.simTime = "steps (no clock in this component)";
     i.faultKinds = {"reject@k", "read-order"};
-    i.probeNames = {"single-class", "many-classes", "median-on", "nested-restriction", "restriction-refused", "restriction-superset-noop", "copy-made", "assigned", "source-destroyed", "namespace-changed", "absent-parameter-name", "bulk-rejected-with-other-entries", "bulk-with-foreign-name", "history-twin-after-updates", "lookup-beyond-first-class", "lookup-index", "regular-value-rejected-by-narrowed-constraint"};
+    i.probeNames = {"single-class", "many-classes", "median-on", "nested-restriction", "restriction-refused", "restriction-superset-noop", "copy-made", "assigned", "source-destroyed", "namespace-changed", "absent-parameter-name", "bulk-rejected-with-other-entries", "bulk-with-foreign-name", "history-twin-after-updates", "lookup-beyond-first-class", "lookup-index", "regular-value-rejected-by-narrowed-constraint", "zero-mass-domain-checked", "class-count-request-on-fixed-count-family", "offset-moved-under-restriction"};
     i.tolerances["prob-sum"] = "|sum p - 1| <= 1e-9 (statement)";
     i.tolerances["class-mass"] = "|pProb(b[i+1]) - pProb(b[i]) - p[i]*M| <= t*M + 1e-12 + |pProb(b+16ulp) - pProb(b-16ulp)| at both class ends; M = domain mass; t = 1e-10 closed-form families, 1e-6 gamma, 1e-5 gamma+offset and beta, 1e-3 gaussian (quantile accuracy of the library, >= 100x the worst unchanged-tree ratio over 48k runs)";
     i.tolerances["mean"] = "|sum p*c - (E(hi)-E(lo))/M| <= 1e-6*(sum p|c| + |mean|) + 1e-9";
@@ -837,12 +838,13 @@ public:
     i.tolerances["cumulative"] = "1e-12*(n+1) (+1e-9 for the two queries computed as 1 - sum)";
     i.assumptions = {"accuracy of pProb/qProb/Expectation against an external reference is not asserted (C08, not applicable): only their mutual consistency",
                      "compound families (simple, constant, invariant-mixed, mixture): class count consistency, normalisation, strictly increasing values, cumulative queries, copy independence and history independence; bounds/masses/mean/lookup are asserted for continuous parents only (statement: 'obey the same normalisation')",
-                     "setNumberOfCategories is not called on Simple and Constant distributions (their class count is fixed by construction)",
+                     "setNumberOfCategories on Simple and Constant distributions (directly or through a mixture) must leave their class count unchanged",
                      "equal-interval classes (beta scheme 2, and scheme 3 when it falls back) carry mid-point values: the mean relation is asserted for the equal-probability scheme only",
                      "a restriction a family refuses with a bpp::Exception is outside the statement: the partition must stay valid, its content is no longer compared with a fresh twin",
-                     "parameters stay in the regular range (shapes in [0.1,100], rates/scales in [0.01,10], locations +-[0.01,10], truncation point in [0.05,50]); a gaussian location of exactly 0 is only exercised by the probe replay replays/C09-gaussian-median-zero-mean.replay (confirmed hang)",
-                     "quantifier guard: restrictions and parameter updates after a restriction are applied only when the (restricted) domain keeps at least 1e-3 of the parent's mass under the new values; the zero-mass case is exercised by replays/C09-zero-mass-domain.replay only (confirmed heap overflow); on compounds only the compound's own weights are updated after a restriction",
-                     "generator-side avoidance of confirmed defects (rates at the top of h_c09.cpp): lookups beyond the first class and getCategoryIndex in 2% of runs; gamma offset updates in 2% of gamma-offset runs (unrestricted, decreasing only); beta shapes stay on their side of 1 and the fresh twin takes the live object's route except in 2% of beta runs; median on a gamma with offset in 5% of runs; Mixture::setNumberOfCategories with a nested Simple/Constant only in replays/C09-mixture-ncat-fixed-count.replay",
+                     "parameters stay in the regular range (shapes in [0.1,100], rates/scales in [0.01,10], locations +-[0.01,10], truncation point in [0.05,50]); a gaussian location of exactly 0 (the default) is drawn in about 10% of gaussian runs",
+                     "quantifier guard: restrictions and parameter updates after a restriction are applied only when the (restricted) domain keeps at least 1e-3 of the parent's mass under the new values; a domain with exactly zero mass is allowed for gamma/gaussian/exponential (uniform fallback: structural laws only); on compounds only the compound's own weights are updated after a restriction",
+                     "generator-side avoidance of the one defect kept as known finding (rescaled medians leave their class): median on a gamma with offset only in 5% of runs; all other triggers of the first version run at full rate since fixes 01-08",
+                     "an offset update on a gamma whose domain was restricted: the domain object only stores the intersection, so the content is no longer compared with a fresh twin (validity still is)",
                      "a bulk update that a compound's own list accepts but a nested family refuses (its constraint was narrowed by a restriction) is treated as refused: validity only",
                      "getCategoryIndex is read as 0-based, like getCategory(i)/getProbability(i)/getBound(i)"};
     return i;
@@ -866,9 +868,6 @@ public:
     putSpec(p, "", s);
     long n0 = rng.chance(0.15) ? 1 : (rng.chance(0.2) ? rng.range(17, 32) : rng.range(2, 16));
     p.cfg["n"] = n0;
-    p.cfg["lookupAll"] = rng.chance(RATE_LOOKUP_BEYOND_FIRST_CLASS) ? 1 : 0;
-    p.cfg["offsetUpd"] = rng.chance(RATE_OFFSET_UPDATE) ? 1 : 0;
-    p.cfg["betaFree"] = rng.chance(RATE_BETA_FREE) ? 1 : 0;
     p.cfg["medianOffset"] = rng.chance(RATE_MEDIAN_WITH_OFFSET) ? 1 : 0;
     static const char* K[] = {"set", "bulk", "ncat", "median", "restrict", "copy", "drop", "ns", "hist", "fun", "lookup"};
     std::vector<double> w = {5, 4, 3, 1.5, 2.5, 1.2, 0.4, 0.5, 2.5, 1, 1};
